@@ -68,7 +68,9 @@ Proof. exact source_cancel_wrong_id. Qed.
 Print Assumptions c12_source_cancel_wrong_id.
 
 (* a successful cancel: the next PDU is EOF (Cancel Request Received), size = bytes sent so far,
-   checksum over exactly that prefix; the handler leaves the file-data sending step for good *)
+   checksum over exactly that prefix; the handler leaves the file-data sending step for good.  In a mode other than
+   acknowledged the transaction ends there and the user is told: Transaction-Finished (Cancel Request Received,
+   data incomplete, file status unreported) is the last indication logged *)
 Theorem c12_source_cancel_ok : forall a b s ck,
   s_ready s <= 0 -> q_tid (s_p s) = Some (a, b) -> s_state s = ST_BUSY -> q_rcfg (s_p s) <> None ->
   (q_cond_eof (s_p s) = None \/ q_cond_eof (s_p s) = Some C_NO_ERROR) ->
@@ -78,8 +80,13 @@ Theorem c12_source_cancel_ok : forall a b s ck,
     s_queue s' = s_queue s ++ [PEof (hdr_of (q_conf (s_p s)) TOWARDS_RECEIVER) C_CANCEL_REQUEST ck (q_progress (s_p s)) None] /\
     (sc_mode (q_conf (s_p s)) = ACKED ->
        s_step s' = SS_WAITING_FOR_EOF_ACK /\ s_state s' = ST_BUSY /\ q_progress (s_p s') = q_progress (s_p s) /\
-       q_cond_eof (s_p s') = Some C_CANCEL_REQUEST) /\
-    (sc_mode (q_conf (s_p s)) <> ACKED -> s_state s' = ST_IDLE /\ s_step s' = SS_IDLE).
+       q_cond_eof (s_p s') = Some C_CANCEL_REQUEST /\
+       log_s s' = (if l_ind_eof_sent (s_cfg s) then [EvEofSent a b] else []) ++ log_s s) /\
+    (sc_mode (q_conf (s_p s)) <> ACKED ->
+       s_state s' = ST_IDLE /\ s_step s' = SS_IDLE /\
+       log_s s' = (if l_ind_fin (s_cfg s)
+                   then [EvFinished a b C_CANCEL_REQUEST DATA_INCOMPLETE FS_UNREPORTED None] else []) ++
+                  (if l_ind_eof_sent (s_cfg s) then [EvEofSent a b] else []) ++ log_s s).
 Proof. exact source_cancel_ok. Qed.
 Print Assumptions c12_source_cancel_ok.
 
